@@ -160,9 +160,11 @@ class World:
                     return None if v == "" else "cs:" + v
 
                 def coerce_input(self, v):
+                    world.scalar_input_calls = getattr(world, "scalar_input_calls", 0) + 1       # user code
                     return v
 
                 def parse_literal(self, ast):
+                    world.scalar_input_calls = getattr(world, "scalar_input_calls", 0) + 1
                     return getattr(ast, "value", None)
         if "type" in trs:
             t.TypeResolver("P", schema_name=sn)(type_type_resolver)
